@@ -7,8 +7,8 @@ from reduce_check import ReduceBase, _noids
 
 class Check(ReduceBase):
     id = 'C07'
-    props = ['Tables.v', 'C07.v']
-    static_targets = ReduceBase.static_targets + ['theories/Lemmas/Normal.vo']
+    props = ['Tables.v', 'C07.v', 'C07Side.v']
+    static_targets = ReduceBase.static_targets + ['theories/Lemmas/Normal.vo', 'theories/Lemmas/NormalSideL.vo']
     trusted = ReduceBase.trusted_common
 
     def comparable(self, case, obs):
